@@ -215,6 +215,9 @@ fn encode<'t, T>(
                         }
 
                         let mut pattern = String::new();
+                        // Classes are always case sensitive, regardless of any flags that precede
+                        // them in the expression.
+                        pattern.push_str("(?-i)");
                         pattern.push('[');
                         if class.is_negated() {
                             pattern.push('^');
